@@ -342,9 +342,9 @@ func (c12) Run(t *tape.Tape, cfg sim.Config) (res sim.Result) {
 	}
 	if focus {
 		// call the functions whose listeners come and go between the runtimes
-		for i := 5; i < len(p.Funcs)+5 && len(script) < 60; i++ {
-			if (i%64 < 12 || t.Chance(1, 10)) && i-5 < len(p.Funcs) {
-				script = append(script, callStep{fn: i - 5, arg: int32(t.Choose(200))})
+		for i := 6; i < len(p.Funcs)+6 && len(script) < 60; i++ {
+			if (i%64 < 12 || t.Chance(1, 10)) && i-6 < len(p.Funcs) {
+				script = append(script, callStep{fn: i - 6, arg: int32(t.Choose(200))})
 			}
 		}
 	}
